@@ -169,3 +169,32 @@ Section Roots.
                 else if (nvalues <=? i)%nat then Panic PIndex else Ok tt   (* values[i] *)
     end.
 End Roots.
+
+(** * the goroutines behind ParsePacket, one packet each *)
+Definition MAGIC_TCP_PONG : N := 0xdc69fb03.
+Definition MAGIC_TCP_AUTH_NONCE : N := 0xe35d4ab6.
+Definition MAGIC_ADNL_ANSWER : N := 0x0fac8416.
+
+Inductive ract := RConsumed | RAuth | RForward.
+
+(* liteclient/connection.go, Connection.reader: [strict] = the payload-length
+   test next to the constructor id of tcp.pong *)
+Definition conn_reader_step_gen (strict : bool) (payload : bytes) : res ract :=
+  do m <- magic_type payload;
+  if N.eqb m MAGIC_TCP_PONG && (if strict then Nat.eqb (List.length payload) 12 else true) then
+    do rest <- slice_from 4 payload;                           (* p.Payload[4:] *)
+    if short 8 rest then Panic PIndex else Ok RConsumed        (* binary.LittleEndian.Uint64 *)
+  else if N.eqb m MAGIC_TCP_AUTH_NONCE then Ok RAuth           (* handleAuthResponse *)
+  else Ok RForward.                                            (* c.resp <- p *)
+Definition conn_reader_step := conn_reader_step_gen true.
+
+(* liteclient/client.go, Client.reader: packets that are not adnl.message.answer
+   are skipped, an error of processQueryAnswer is logged *)
+Definition client_reader_step (known : bool) (payload : bytes) : res (option bytes) :=
+  do m <- magic_type payload;
+  if negb (N.eqb m MAGIC_ADNL_ANSWER) then Ok None else
+  match process_query_answer known payload with
+  | Ok d => Ok (Some d)
+  | Err _ => Ok None
+  | Panic p => Panic p
+  end.
